@@ -142,11 +142,54 @@ func concStress(g *Gen, img []byte, v VOpts, dir string) string {
 	}
 	closeBase()
 	rounds := 3
+	modified := r.Chance(1, 2)
+	if modified {
+		rounds = 4
+	}
 	for round := 0; round < rounds; round++ {
 		backend := pick(r, []string{"buf", "file"})
 		f, closeF, err := openHandle(img, backend, dir, round+1)
 		if err != nil {
 			continue
+		}
+		if modified && round == 3 {
+			// a handle that has just been modified (an object deleted without compaction, perhaps one
+			// added) and is then only read, by several goroutines at once: the answers are those of
+			// a fresh load of the bytes it wrote
+			closeF()
+			buf := sif.NewBuffer(append([]byte(nil), img...))
+			wf, werr := sif.LoadContainer(buf)
+			if werr != nil {
+				continue
+			}
+			var ids []uint32
+			wf.WithDescriptors(func(d sif.Descriptor) bool { ids = append(ids, d.ID()); return false })
+			if len(ids) < 2 {
+				_ = wf.UnloadContainer()
+				continue
+			}
+			if wf.DeleteObject(pick(r, ids), sif.OptDeleteDeterministic(), sif.OptDeleteZero(r.Chance(1, 2))) != nil {
+				_ = wf.UnloadContainer()
+				continue
+			}
+			if r.Chance(1, 2) {
+				if di, derr := sif.NewDescriptorInput(sif.DataGeneric, bytes.NewReader(r.Bytes(1+r.Intn(64))), sif.OptGroupID(1)); derr == nil {
+					_ = wf.AddObject(di, sif.OptAddDeterministic())
+				}
+			}
+			ref, closeRef, rerr := openHandle(append([]byte(nil), buf.Bytes()...), "buf", dir, 9)
+			if rerr != nil {
+				_ = wf.UnloadContainer()
+				continue
+			}
+			qs = concQueries(ref, v)
+			solo = make([]string, len(qs))
+			for i, q := range qs {
+				solo[i] = q.run(ref)
+			}
+			closeRef()
+			f, closeF, backend = wf, func() { _ = wf.UnloadContainer() }, "just-modified buf"
+			g.count("conc:just-modified-handle")
 		}
 		nG := 2 + r.Intn(7)
 		g.count(fmt.Sprintf("conc:goroutines-%d", nG))
